@@ -161,7 +161,11 @@ def oracle(A, v, m, d, dt, hermA, lam_reach_min=None):
             return f'lowest Ritz value {th1:.12g} above the Rayleigh quotient {rq:.12g} of the start vector'
         if m >= d:
             lr = lam_reach_min if lam_reach_min is not None else reachable_min(A, v)
-            if abs(th1 - lr) > 1e-7 * nA:
+            # The Krylov space of the *rounded* input is only numerically d-dimensional.  If the breakdown was detected (or m = d)
+            # exactly d vectors were produced and the lowest Ritz value must be the smallest reachable eigenvalue; if the iteration ran
+            # on past the exhaustion point (rounding noise above the absolute threshold) the property only promises the leading
+            # part, which still forces theta_1 <= smallest reachable eigenvalue (interlacing).
+            if th1 > lr + 1e-7 * nA or (len(w) <= d and abs(th1 - lr) > 1e-7 * nA):
                 return f'numiter={m} >= Krylov dimension {d}: lowest Ritz value {th1:.12g} differs from the smallest reachable eigenvalue {lr:.12g}'
         if len(w) <= d:
             G = u.conj().T @ u
